@@ -1248,7 +1248,7 @@ class Quantized(Sampler):
         quantized = np.round(np.divide(values, self.q)) * self.q
         if not isinstance(quantized, np.ndarray):
             return domain.cast(quantized)
-        return list(quantized)
+        return [domain.cast(x) for x in quantized]
 
     def __eq__(self, other) -> bool:
         return (
